@@ -161,10 +161,11 @@ func txQueue(tptx gtypes.Tx, apptxQ [][]appTx, i, j int) error {
 		}
 	}
 
-	atomic.StoreInt32(&cur.status, appTxStatusInit)
+	// everything the executing goroutine reads must be written before the status is published
 	if j == 0 {
 		apptxQ[i][j].oribys = tptx
 	}
+	atomic.StoreInt32(&cur.status, appTxStatusInit)
 	j++
 	return nil
 }
@@ -221,8 +222,9 @@ func tryValidate(signer etypes.Signer, tx *appTx) error {
 
 	_, err := etypes.Sender(signer, tx.tx)
 	if err != nil {
-		atomic.StoreInt32(&tx.status, appTxStatusFailed)
+		// publish the error before the status: the executor reads tx.err as soon as it sees Failed
 		tx.err = err
+		atomic.StoreInt32(&tx.status, appTxStatusFailed)
 		return err
 	}
 
